@@ -59,6 +59,9 @@ type scScenario struct {
 	Extra     int      `json:"extra_cache"` // >0: WithCache(extra) and cget allowed
 	Init      []scOp   `json:"init"`
 	Threads   [][]scOp `json:"threads"`
+	// FailKind: the first file-system effect of this kind ("link", "create", "write") issued by the
+	// threads fails with an injected I/O error (the put's failure clean-up then runs)
+	FailKind string `json:"fail_kind,omitempty"`
 }
 
 type scRec struct {
@@ -162,15 +165,28 @@ func scReadCheck(acc eds.AccessorStreamer, s *sq.Square) (ret string) {
 	return "ok"
 }
 
+// scErrClass: error texts carry the per-execution temp directory; only success/failure (and
+// whether the failure is the injected fault) is compared between executions.
+func scErrClass(err error) string {
+	switch {
+	case err == nil:
+		return "<nil>"
+	case errors.Is(err, vos.ErrInjected):
+		return "failed:injected-fault"
+	default:
+		return "failed"
+	}
+}
+
 func scDo(st *Store, cs *CachedStore, ts *scThreadState, op scOp) string {
 	ctx := context.Background()
 	switch op.K {
 	case "putq4":
 		s := scSquares[op.Sq]
-		return fmt.Sprint(st.PutODSQ4(ctx, s.DAH, op.H, s.EDS))
+		return scErrClass(st.PutODSQ4(ctx, s.DAH, op.H, s.EDS))
 	case "putods":
 		s := scSquares[op.Sq]
-		return fmt.Sprint(st.PutODS(ctx, s.DAH, op.H, s.EDS))
+		return scErrClass(st.PutODS(ctx, s.DAH, op.H, s.EDS))
 	case "get", "cget":
 		var acc eds.AccessorStreamer
 		var err error
@@ -214,6 +230,22 @@ func scDo(st *Store, cs *CachedStore, ts *scThreadState, op scOp) string {
 		err := ts.acc.Close()
 		ts.acc = nil
 		return fmt.Sprint(err)
+	case "geth":
+		acc, err := st.GetByHash(ctx, share.DataHash(scSquares[op.Sq].DAH.Hash()))
+		if err != nil {
+			if errors.Is(err, ErrNotFound) {
+				return "notfound"
+			}
+			return "err:" + err.Error()
+		}
+		ts.acc, ts.sq = acc, op.Sq
+		return "got:" + op.Sq
+	case "hash":
+		ok, err := st.HasByHash(ctx, share.DataHash(scSquares[op.Sq].DAH.Hash()))
+		if err != nil {
+			return "err:" + err.Error()
+		}
+		return fmt.Sprint(ok)
 	case "has":
 		ok, err := st.HasByHeight(ctx, op.H)
 		if err != nil {
@@ -221,9 +253,9 @@ func scDo(st *Store, cs *CachedStore, ts *scThreadState, op scOp) string {
 		}
 		return fmt.Sprint(ok)
 	case "remove":
-		return fmt.Sprint(st.RemoveODSQ4(ctx, op.H, share.DataHash(scSquares[op.Sq].DAH.Hash())))
+		return scErrClass(st.RemoveODSQ4(ctx, op.H, share.DataHash(scSquares[op.Sq].DAH.Hash())))
 	case "removeq4":
-		return fmt.Sprint(st.RemoveQ4(ctx, op.H, share.DataHash(scSquares[op.Sq].DAH.Hash())))
+		return scErrClass(st.RemoveQ4(ctx, op.H, share.DataHash(scSquares[op.Sq].DAH.Hash())))
 	}
 	panic("unknown op " + op.K)
 }
@@ -328,6 +360,16 @@ func scRun(t *testing.T, tmp string, sc scScenario, e *vx.Exec, keepTrace, atomi
 			}
 			sess := vos.Begin(dir, nil)
 			defer sess.End()
+			if sc.FailKind != "" {
+				fired := false
+				sess.Fail = func(_ int, kind, _ string) error {
+					if !fired && kind == sc.FailKind {
+						fired = true
+						return vos.ErrInjected
+					}
+					return nil
+				}
+			}
 			s := vsched.New(e.ChooseCost)
 			s.KeepTrace = keepTrace
 			s.AtomicOps = atomicOps
@@ -554,6 +596,12 @@ func scScenarios(tier string) []scScenario {
 			Threads: [][]scOp{{O("cget", h, ""), O("read", 0, ""), O("close", 0, "")}, {O("remove", h, "A")}}},
 		{Name: "cached-miss-vs-remove-colliding-height", CacheSize: 0, Extra: 1, Init: []scOp{O("putq4", h, "A"), O("putq4", h2, "B")},
 			Threads: [][]scOp{{O("cget", h2, ""), O("read", 0, ""), O("close", 0, "")}, {O("remove", h, "A")}}},
+		{Name: "put-flavours-same-height", CacheSize: 1,
+			Threads: [][]scOp{{O("putods", h, "A")}, {O("putq4", h, "A")}, {O("has", h, ""), O("hash", 0, "A")}}},
+		{Name: "get-by-hash-vs-remove", CacheSize: 1, Init: []scOp{O("putq4", h, "A")},
+			Threads: [][]scOp{{O("geth", 0, "A"), O("read", 0, ""), O("close", 0, "")}, {O("remove", h, "A")}}},
+		{Name: "failed-put-vs-reader", CacheSize: 1, FailKind: "link",
+			Threads: [][]scOp{{O("putq4", h, "A")}, rd(h)}},
 		{Name: "put-vs-remove-same-block", CacheSize: 1,
 			Threads: [][]scOp{{O("putq4", h, "A")}, {O("remove", h, "A"), O("has", h, "")}}},
 		{Name: "put-remove-collide", CacheSize: 1, Init: []scOp{O("putq4", h, "A")},
